@@ -47,14 +47,32 @@ EXPLANATION = (
     "restored first, then the original again: restored == reference and original-after-restored == reference."
 )
 BOUNDS = {
-    "quick": "see cases(): representative subjects per kind, pickle protocols {2, highest}, one order-pair per op",
-    "thorough": "all subjects x all routes x full battery x both orders",
+    "quick": "34 subjects (table units: degree arcmin rad | K degC delta_degC degF | dB Np | dimensionless percent | C statC T G | m Msun | "
+             "km/s degree/s J/K g/cm**3; custom registries: added xla, prefixed kxlp, offset xto, delta xtd, angle xga, logarithmic xlg, compounds; "
+             "modified xla and modified default pc; unit_system=cgs registry) x 11 routes (pickle 2/5 of quantity, pickle 5 of Unit, deepcopy of "
+             "quantity, deepcopy/copy/q.copy() of the SYMBOLIC quantity itself, Unit.copy(deep), Unit.copy(), str, JSON, savetxt) x per-kind families "
+             "of follow-ups (trig 3, exp 1, base 4, arith 7, unit 3, thermal equivalence; per partner unit: bin 6, conv 4) x order {original first, "
+             "restored first with fresh-world reference} (object-graph routes both orders, by-reference/text routes original-first only); scalar and "
+             "2-element payloads; + 361 registry-table cases (one per subject x route); + 150 concrete value round-trip cases",
+    "thorough": "70 subjects (adds arcsec mas lat lon sr R delta_degF mK kdegC B A statA V statV ohm statohm esu km erg s g and 9 compounds, more "
+                "units of the modified / cgs registries) x 9 routes for every subject (15 for the 34 subjects of the quick tier), all 27 routes (pickle 2,3,4,5 of Unit / quantity / array, nested "
+                "containers, deepcopy of array / nested, copy.copy, q.copy(), repr) for one subject per (kind, registry) x full families (trig 4, exp 2, "
+                "base 10, arith 20, unit 9, equiv 2; per partner: bin 19, conv 14) x both orders on object-graph routes (by-reference/text routes: both orders for one subject per (kind, registry), else original-first); partner restored as well for "
+                "angle/temperature/logarithmic subjects on 3 routes; + 1222 registry-table cases; + 224 concrete value round-trip cases",
 }
-OUTSIDE = ("The persistence step is concrete: payload numbers through pickle/savetxt are compared byte-wise on a fixed list of arrays (ground, "
-           "not solved); unit scales/offsets of persisted units are concrete (table values and fixed custom values), not symbols; pickle "
-           "protocols 0 and 1 (sympy refuses them: NotImplementedError, checked); HDF5 (h5py absent); dask arrays; IEEE rounding (A1); "
-           "follow-up programs longer than one operation (memoised rules are exercised by the order axis only); trig follow-ups are "
-           "decided for payloads in [0.5, 3] (sin/cos/tan are uninterpreted, the interval makes every model reproducible)")
+OUTSIDE = ("PARTIAL. Not solver statements: (1) the persistence step itself is concrete - that stored NUMBERS survive pickle / savetxt / copies is a byte-wise "
+           "comparison on 8 fixed arrays (float64 incl. inf/nan/denormal/strided/empty, float32, int64) x 10 routes (ground checks; the symbolic battery "
+           "then ASSUMES restored payload == stored payload); (2) registry tables are compared row by row concretely; (3) scales and offsets of the "
+           "persisted units are concrete (table values, fixed custom values), only the payloads x, y of the follow-up operations are symbols; subjects, "
+           "routes, operations, partners and order are enumerated. Outside altogether: pickle protocols 0 and 1 (sympy refuses them with "
+           "NotImplementedError - checked that the refusal is loud); savetxt/loadtxt of custom-registry units (loadtxt reads names in the default "
+           "registry); HDF5 (h5py absent), dask arrays; the `name` attribute of arrays; raw hash values of units of different registries (they depend on "
+           "the repr of the registry table by design); follow-up programs longer than one operation per cache epoch; trig follow-ups are decided for "
+           "payloads in [0.5, 3] (sin/cos/tan are uninterpreted functions - on that interval every model of a linear-argument discrepancy replays); "
+           "q**2 / q**0.5 operator forms (NumPy's scalar-power fast path differs for object arrays: np.square/np.sqrt/np.power are used); IEEE rounding (A1)")
+ASSUMPTIONS = ["C11: the payload of the restored quantity is a separate symbol constrained equal to the stored payload (justified by the concrete byte-wise "
+               "round-trip checks of the same run); each case first clears sympy's global expression cache, unyt's lru caches and puts the default "
+               "registry's table/string cache back to the import state, so that outcomes do not depend on which cases ran before in the interpreter"]
 CONFORM = {"quick": 40, "thorough": 120}
 BATCH_REPLAY = True  # every case clears the lru caches itself and builds its own registries: replays are independent within one interpreter
 
@@ -416,10 +434,25 @@ def outcome(f):
     return norm(r[1])
 
 
-def obligations(ctx, tag, a, b):
-    """require that outcome b (of the object under test) is the same as outcome a (of the original)"""
-    for asp, cond in same(a, b):
-        ctx.require(f"{tag}/{asp}", cond, original=show(a), under_test=show(b))
+class Ledger:
+    """collects `same outcome` conditions of the follow-ups of one family; one obligation per (comparison, family, aspect) - the
+    operations concerned are named in the info of the obligation, not in its label"""
+
+    def __init__(self, family):
+        self.family, self.items = family, {}
+
+    def add(self, tag, op, a, b):
+        for asp, cond in same(a, b):
+            self.items.setdefault((tag, asp), []).append((op, cond, a, b))
+
+    def discharge(self, ctx):
+        for (tag, asp), lst in self.items.items():
+            doubt = [(op, a, b) for op, c, a, b in lst if not (c is True)]
+            info = {}
+            if doubt:
+                bad = [(op, a, b) for op, c, a, b in lst if c is False] or doubt
+                info = dict(operations=",".join(op for op, _, _ in doubt)[:200], first=bad[0][0], original=show(bad[0][1]), under_test=show(bad[0][2]))
+            ctx.require(f"{tag}/{self.family}/{asp}", And(*[c for _, c, _, _ in lst]), **info)
 
 
 # ---------------------------------------------------------------------------------------------------------------- the case body
@@ -461,8 +494,11 @@ class World:
             self.persist = None
             return
         self.persist = call(ROUTES[route], ctx, self.u, self.reg)
+        self.partner_persist = None
         if partner is not None and pmode == "pr" and self.persist[0] == "ok":
-            self.PR[partner] = ROUTES[route](ctx, self.PU[partner], self.reg)
+            self.partner_persist = call(ROUTES[route], ctx, self.PU[partner], self.reg)
+            if self.partner_persist[0] == "ok":
+                self.PR[partner] = self.partner_persist[1]
 
     def env_original(self, ctx, pay):
         return Env(ctx, self.u, self.reg, self.PU, pay["x"], pay["y"], pay["x2"])
@@ -539,19 +575,25 @@ def make_case(subj, route, family, ops, partner, order, pmode="po"):
         ctx.require("persist/completes", w.persist[0] == "ok", error=repr(w.persist[1])[:200])
         if w.persist[0] != "ok":
             return
+        if w.partner_persist is not None:
+            ctx.require("persist/partner-completes", w.partner_persist[0] == "ok", error=repr(w.partner_persist[1])[:200])
+            if w.partner_persist[0] != "ok":
+                return
+        led = Ledger(family)
         for i, (op, fn, dom) in enumerate(prog):
             po, pr = pays[dom]
             _clear(ctx)
             if order == "OR":
                 a = outcome(lambda: fn(w.env_original(ctx, po)))
                 b = outcome(lambda: fn(w.env_restored(ctx, pr)))
-                obligations(ctx, f"restored-vs-original/{op}", a, b)
+                led.add("restored-vs-original", op, a, b)
             else:
                 b = outcome(lambda: fn(w.env_restored(ctx, pr)))
                 a = outcome(lambda: fn(w.env_original(ctx, po)))
-                obligations(ctx, f"restored-vs-original/{op}", refs[i], b)
-                obligations(ctx, f"original-after-restored/{op}", refs[i], a)
+                led.add("restored-vs-original", op, refs[i], b)
+                led.add("original-after-restored", op, refs[i], a)
             _observe(ctx, op, b)
+        led.discharge(ctx)
 
     pm = "" if pmode == "po" else "+pr"
     return Case(f"C11/{subj.id}/{route}/{family}{_pn(partner)}{pm}/{order}", h, bounds="symbolic: payloads; concrete: scales, persistence",
@@ -702,45 +744,43 @@ KIND_FAMILIES = {
 FAMILIES["equiv"] = (["equiv:thermal"], ["equiv:spectral"])
 
 SUBJECTS_QUICK = [
-    S("angle", "degree", partners=["rad", "arcmin", "m"]), S("angle", "arcmin", partners=["degree"]), S("angle", "rad", partners=["degree"]),
-    S("temp", "K", partners=["degC", "delta_degC", "K"]), S("temp", "degC", partners=["K", "delta_degC", "degF", "degC"]),
-    S("temp", "delta_degC", partners=["degC", "degF", "K"]), S("temp", "degF", partners=["degC", "delta_degF"]),
-    S("log", "dB", partners=["Np", "m", "dimensionless"]), S("log", "Np", partners=["dB", "s"]),
-    S("nodim", "dimensionless", partners=["percent", "dB", "m"]), S("nodim", "percent", partners=["dimensionless", "rad"]),
-    S("em", "C", partners=["statC", "A"]), S("em", "statC", partners=["C", "esu"]), S("em", "T", partners=["G"]), S("em", "G", partners=["T"]),
-    S("plain", "m", partners=["cm", "s"]), S("plain", "Msun", partners=["g"]),
-    S("compound", "km/s", partners=["m/s", "mile/hr"]), S("compound", "degree/s", partners=["rad/s", "Hz"]), S("compound", "J/K", partners=["erg/K"]),
-    S("compound", "g/cm**3", partners=["kg/m**3"]),
+    S("angle", "degree", partners=["rad", "m"]), S("angle", "arcmin", partners=["degree"]),
+    S("temp", "K", partners=["degC", "delta_degC"]), S("temp", "degC", partners=["K", "degF"]), S("temp", "delta_degC", partners=["degC", "degF"]),
+    S("log", "dB", partners=["Np", "m"]), S("nodim", "dimensionless", partners=["percent", "dB"]),
+    S("em", "C", partners=["statC"]), S("plain", "m", partners=["cm"]), S("compound", "km/s", partners=["mile/hr"]),
     # custom registries
-    S("plain", "xla", "regadd", partners=["m", "kxlp"]), S("plain", "kxlp", "regadd", partners=["xla", "km"]),
-    S("temp", "xto", "regadd", partners=["K", "degC", "xtd", "xto"]), S("temp", "xtd", "regadd", partners=["xto", "K"]),
-    S("angle", "xga", "regadd", partners=["degree", "rad"]), S("log", "xlg", "regadd", partners=["dB", "m"]),
-    S("compound", "xla**2/s", "regadd", partners=["m**2/s"]), S("compound", "xga/kxlp", "regadd", partners=["rad/m"]),
-    S("plain", "xla", "regmod", partners=["m", "pc", "kpc"]), S("plain", "pc", "regmod", partners=["xla", "kpc", "m"]),
-    S("compound", "pc/s", "regmod", partners=["km/s", "kpc/s"]),
-    S("plain", "xla", "regcgs", partners=["cm", "m"]), S("compound", "g*xla/s**2", "regcgs", partners=["dyne", "N"]),
+    S("plain", "xla", "regadd", partners=["m", "kxlp"]), S("plain", "kxlp", "regadd", partners=["xla"]),
+    S("temp", "xto", "regadd", partners=["K", "xtd"]), S("angle", "xga", "regadd", partners=["degree"]),
+    S("plain", "xla", "regmod", partners=["pc"]), S("plain", "pc", "regmod", partners=["kpc", "m"]),
+    S("plain", "xla", "regcgs", partners=["cm"]),
 ]
 SUBJECTS_THOROUGH_EXTRA = [
-    S("angle", "arcsec", partners=["mas", "degree"]), S("angle", "mas", partners=["rad"]), S("angle", "lat", partners=["lon", "degree", "rad"]),
-    S("angle", "lon", partners=["lat", "degree"]), S("compound", "sr", partners=["degree**2", "rad**2"]),
-    S("temp", "R", partners=["degF", "K", "degC", "delta_degF"]), S("temp", "delta_degF", partners=["degF", "delta_degC", "R"]),
-    S("temp", "mK", partners=["degC", "K"]), S("temp", "kdegC", partners=["K", "degC"]),
-    S("log", "B", partners=["dB", "Np"]),
-    S("em", "A", partners=["statA", "C/s"]), S("em", "statA", partners=["A"]), S("em", "V", partners=["statV"]), S("em", "statV", partners=["V"]),
-    S("em", "ohm", partners=["statohm"]), S("em", "statohm", partners=["ohm"]), S("em", "esu", partners=["C"]),
-    S("plain", "km", partners=["mile", "m"]), S("plain", "erg", partners=["J", "eV"]), S("plain", "s", partners=["yr", "Hz"]), S("plain", "g", partners=["kg", "lb"]),
-    S("compound", "kg*m**2/s**2", partners=["J"]), S("compound", "W/m**2/K**4", partners=["erg/s/cm**2/K**4"]), S("compound", "m**(1/2)", partners=["cm**(1/2)"]),
-    S("compound", "1/s", partners=["Hz", "1/yr"]), S("compound", "K/m", partners=["R/ft", "delta_degC/m"]), S("compound", "degree*km", partners=["rad*m"]),
-    S("compound", "dimensionless/s", partners=["Hz"], tag="nodim_per_s"), S("compound", "Msun/pc**3", partners=["g/cm**3"]),
-    S("temp", "xto", "regmod", partners=["K", "degC"]), S("plain", "kpc", "regmod", partners=["pc", "m"]),
-    S("compound", "xla*pc", "regmod", partners=["m**2"]),
-    S("temp", "K", "regcgs", partners=["degC"]), S("angle", "degree", "regcgs", partners=["rad"]), S("plain", "g", "regcgs", partners=["kg"]),
+    S("angle", "rad", partners=["degree"]), S("angle", "lat", partners=["lon", "degree"]), S("angle", "mas", partners=["arcsec"]),
+    S("temp", "degF", partners=["degC", "delta_degF"]), S("temp", "R", partners=["degF", "K"]), S("temp", "delta_degF", partners=["degF", "delta_degC"]),
+    S("temp", "mK", partners=["degC", "K"]), S("temp", "kdegC", partners=["K"]),
+    S("log", "Np", partners=["dB", "s"]), S("log", "B", partners=["dB"]), S("nodim", "percent", partners=["dimensionless", "rad"]),
+    S("em", "statC", partners=["C", "esu"]), S("em", "T", partners=["G"]), S("em", "G", partners=["T"]), S("em", "A", partners=["statA"]),
+    S("em", "V", partners=["statV"]), S("em", "ohm", partners=["statohm"]),
+    S("plain", "Msun", partners=["g"]), S("plain", "erg", partners=["J", "eV"]), S("plain", "s", partners=["yr", "Hz"]),
+    S("compound", "degree/s", partners=["rad/s", "Hz"]), S("compound", "J/K", partners=["erg/K"]), S("compound", "g/cm**3", partners=["kg/m**3"]),
+    S("compound", "sr", partners=["degree**2"]), S("compound", "W/m**2/K**4", partners=["erg/s/cm**2/K**4"]), S("compound", "m**(1/2)", partners=["cm**(1/2)"]),
+    S("compound", "K/m", partners=["R/ft", "delta_degC/m"]), S("compound", "degree*km", partners=["rad*m"]),
+    S("compound", "dimensionless/s", partners=["Hz"], tag="nodim_per_s"),
+    S("temp", "xtd", "regadd", partners=["xto", "K"]), S("log", "xlg", "regadd", partners=["dB", "m"]),
+    S("compound", "xla**2/s", "regadd", partners=["m**2/s"]), S("compound", "xga/kxlp", "regadd", partners=["rad/m"]),
+    S("compound", "pc/s", "regmod", partners=["km/s", "kpc/s"]), S("temp", "xto", "regmod", partners=["K"]), S("plain", "kpc", "regmod", partners=["pc"]),
+    S("compound", "g*xla/s**2", "regcgs", partners=["dyne"]), S("temp", "K", "regcgs", partners=["degC"]), S("angle", "degree", "regcgs", partners=["rad"]),
     S("em", "C", "regcgs", partners=["statC"]),
 ]
 
-ROUTES_QUICK = [f"graph:pickle{HI}.unit", "graph:pickle2.qty", f"graph:pickle{HI}.qty", "graph:deepcopy.qty", "graph:deepcopy.symq",
-                "graph:unitcopy.deep", "ref:copy.symq", "ref:unitcopy", "text:str", "text:json", "text:savetxt"]
-ROUTES_CORE = ROUTES_QUICK + ["graph:pickle.nested", "graph:deepcopy.unit", "ref:qtycopy.symq", "ref:copy.unit"]
+# quick: one representative per persistence mechanism; both orders on three object-graph routes
+ROUTES_QUICK = ["graph:pickle2.qty", f"graph:pickle{HI}.qty", f"graph:pickle{HI}.unit", "graph:deepcopy.symq", "graph:unitcopy.deep",
+                "ref:copy.symq", "text:str", "text:json", "text:savetxt"]
+ROUTES_QUICK_BOTH_ORDERS = {f"graph:pickle{HI}.qty", f"graph:pickle{HI}.unit", "graph:deepcopy.symq"}
+# thorough, subjects added by the thorough tier
+ROUTES_EXTRA = [f"graph:pickle{HI}.qty", f"graph:pickle{HI}.unit", "graph:deepcopy.qty", "graph:unitcopy.deep", "ref:unitcopy", "text:str", "text:json"]
+# thorough, subjects of the quick tier
+ROUTES_CORE = ROUTES_QUICK + ["graph:deepcopy.qty", "graph:pickle.nested", "graph:deepcopy.unit", "ref:qtycopy.symq", "ref:copy.unit", "ref:unitcopy"]
 
 
 def _routes_for(subj, names):
@@ -751,7 +791,15 @@ def cases(tier, mods):
     check_names(mods, NAMES)
     out = []
     thorough = tier != "quick"
-    core_ids = {s.id for s in SUBJECTS_QUICK}
+    # thorough: every route (all pickle protocols, nested containers, array forms) for one table subject per kind and one custom-registry subject = all_ids;
+    # ROUTES_CORE for the other subjects of the quick tier; ROUTES_EXTRA for the subjects the thorough tier adds
+    quick_ids = {s.id for s in SUBJECTS_QUICK}
+    all_ids, seen = set(), set()
+    for s in SUBJECTS_QUICK:
+        key = s.kind if s.world == "default" else s.world
+        if key not in seen and s.world in ("default", "regadd"):
+            seen.add(key)
+            all_ids.add(s.id)
     subjects = SUBJECTS_QUICK + (SUBJECTS_THOROUGH_EXTRA if thorough else [])
     for s in subjects:
         fq, ft = KIND_FAMILIES[s.kind]
@@ -759,12 +807,15 @@ def cases(tier, mods):
         if not thorough:
             routes = ROUTES_QUICK
         else:
-            routes = list(ROUTES) if s.id in core_ids else ROUTES_CORE
+            routes = list(ROUTES) if s.id in all_ids else (ROUTES_CORE if s.id in quick_ids else ROUTES_EXTRA)
         for route in _routes_for(s, routes):
             out.append(make_registry_case(s, route))
             heavy = route.startswith("graph:")
-            # by-reference and text routes hand back the very same objects in most cases: the quick tier runs them in one order only
-            orders = ("OR", "RO") if (heavy or thorough) else ("OR",)
+            if thorough:
+                # by-reference and text routes hand back the very same objects in most cases: second order only for the all_ids subjects
+                orders = ("OR", "RO") if (heavy or s.id in all_ids) else ("OR",)
+            else:
+                orders = ("OR", "RO") if route in ROUTES_QUICK_BOTH_ORDERS else ("OR",)
             for order in orders:
                 for f in fams:
                     ops = FAMILIES[f][0] + (FAMILIES[f][1] if thorough else [])
@@ -772,7 +823,7 @@ def cases(tier, mods):
                 for p in s.partners:
                     for f, (oq, ot) in BIN_FAMILIES.items():
                         out.append(make_case(s, route, f, oq + (ot if thorough else []), p, order))
-                        if thorough and f == "bin" and s.kind in ("temp", "angle", "log") and route in PARTNER_RESTORED_ROUTES:
+                        if thorough and f == "bin" and s.kind in ("temp", "angle", "log") and route in PARTNER_RESTORED_ROUTES and s.id in quick_ids:
                             out.append(make_case(s, route, f, oq + ot, p, order, pmode="pr"))
     # concrete value round trips
     vroutes = list(VALUE_ROUTES) + ["savetxt"]
